@@ -276,7 +276,7 @@ fn legacy_sweep(st: &Mutex<Stats>) {
                 let calc = ir.create_interest_rate_calculator(&group(true));
                 let one: i128 = 1 << 48;
                 let o = raw_of(I80F48::from_num(opt));
-                let mut urs = vec![0, 1, o - 1, o, o + 1, o / 2, o + (one - o) / 2, one - 1, one];
+                let mut urs = vec![0, 1, o - 1, o, o + 1, o / 2, o + (one - o) / 2, one - 1, one, one + 1, one + one / 2, one << 20];
                 urs.retain(|x| *x >= 0);
                 urs.sort();
                 urs.dedup();
@@ -307,7 +307,7 @@ fn legacy_sweep(st: &Mutex<Stats>) {
                     }
                 }
                 let mut g = st.lock().unwrap();
-                g.evaluations += 9;
+                g.evaluations += 12;
                 g.found.extend(lf);
             }
         }
@@ -426,7 +426,7 @@ pub fn run(tier: Tier) -> Outcome {
     o.coverage = json!({
         "evaluations": s.evaluations,
         "distinct_nontrivial": s.accepted,
-        "rule": "configurations = complete 5-point product over a small (util, rate) menu with padding in any position, plus every strictly-increasing-util / arbitrary-rate shape over a larger menu with trailing padding, each x zero/hundred rates, plus a 7^3 legacy menu; for every accepted configuration the real calculator is evaluated at every breakpoint, +-1 and +-2 ulp around it, segment mid and third points, 0, 1, 1.5 and 2^20, under 3 fee vectors x program fees on/off; distinct_nontrivial = number of accepted configurations (each evaluated at all those utilizations)",
+        "rule": "configurations = complete 5-point product over a small (util, rate) menu with padding in any position, plus every strictly-increasing-util / arbitrary-rate shape over a larger menu with trailing padding, each x zero/hundred rates, plus a 7^3 legacy menu (evaluated at 0, both sides of the optimal point, segment mid points, 1, 1+ulp, 1.5 and 2^20); for every accepted configuration the real calculator is evaluated at every breakpoint, +-1 and +-2 ulp around it, segment mid and third points, 0, 1, 1.5 and 2^20, under 3 fee vectors x program fees on/off; distinct_nontrivial = number of accepted configurations (each evaluated at all those utilizations)",
         "configs": s.configs,
         "accepted_configs": s.accepted,
         "complete_product_configs": n_prod,
